@@ -1,1 +1,58 @@
-From CMinx Require Import Base.Str.
+(* Properties/C13.v -- Directory mode writes exactly one page per processed CMake file.
+   Only theorem statements; proofs are in Proofs/WalkFacts.v, WalkFacts2.v.
+   Model: Model/Walk.v (document over a file tree whose child order is the OS listing order),
+   parametric in the exclusion matcher excl and the per-file documenter docfn. *)
+From Coq Require Import String List Permutation.
+From CMinx Require Import Base.Str Model.Naming Model.Pipeline Model.Walk
+     Gen.SourceLiterals Proofs.WalkFacts Proofs.WalkFacts2 Proofs.LiteralsMatch.
+Import ListNotations.
+
+(* the written paths are exactly the declaratively expected ones: one index.rst per processed
+   directory, one <stem>.rst per non-excluded *.cmake file (case-insensitive) of a processed
+   directory, sub-directories only with -r and only when kept; nothing else *)
+Theorem C13_writes_exact :
+  forall st hdrs docfn excl, ws_out st = true -> all_ok docfn -> excl [] true = false ->
+  forall base children,
+    Permutation (write_paths (document st hdrs docfn excl base (KDir children)))
+                (expected_paths st excl [] children).
+Proof. exact writes_exact. Qed.
+Print Assumptions C13_writes_exact.
+
+Theorem C13_nonrecursive_only_top :
+  forall st excl, ws_recursive st = false -> forall children,
+    expected_paths st excl [] children = expected_in_dir st excl [] children.
+Proof. exact writes_exact_nonrecursive. Qed.
+Print Assumptions C13_nonrecursive_only_top.
+
+(* exactly one write per page (distinct sibling names and stems, no file with stem index) *)
+Theorem C13_one_write_per_path :
+  forall st hdrs docfn excl, ws_out st = true -> all_ok docfn -> excl [] true = false ->
+  forall base top, tree_ok top = true ->
+    NoDup (write_paths (document st hdrs docfn excl base (KDir top))).
+Proof. exact write_paths_nodup. Qed.
+Print Assumptions C13_one_write_per_path.
+
+(* each page is what the per-file documenter produces for that file's bytes; only title and
+   module name depend on the path *)
+Theorem C13_page_is_single_file_output :
+  forall st hdrs docfn excl base top p text,
+    In (AWrite p text) (document st hdrs docfn excl base (KDir top)) ->
+    (forall rel, p <> rel ++ [index_rst]) ->
+    exists rel ch, visited st excl [] top rel ch /\ is_page_of st docfn excl base rel ch p text.
+Proof. exact page_content. Qed.
+Print Assumptions C13_page_is_single_file_output.
+
+(* the hypotheses are needed: a file index.cmake collides with the directory index *)
+Theorem C13_index_cmake_collides_refuted :
+  ltac:(let t := type of index_cmake_collides in exact t).
+Proof. exact index_cmake_collides. Qed.
+Print Assumptions C13_index_cmake_collides_refuted.
+
+(* the literals of document() / document_single_file() the model uses are those of the source *)
+Theorem C13_source_literals_pinned :
+  get (s"document") init_strings
+  = [[]; []; cmake_ext; cmake_ext; s"toctree"; s"maxdepth"; s"/index.rst"; cmake_ext; [dot]; [dot];
+     s"index.rst"; cmake_ext]
+  /\ geti (s"document") init_ints = [1; 2; 1].
+Proof. exact document_literals. Qed.
+Print Assumptions C13_source_literals_pinned.
